@@ -626,6 +626,12 @@ def _parse_select(querystring: str) -> dict:
     relations = _parse_select_from(lexer)
     condition = _parse_select_where(lexer)
     lexer.expect_type(_DOT)
+    # nothing but the sentinel (after an explicit final '.') may follow
+    while True:
+        try:
+            lexer.expect_type(_DOT)
+        except StopIteration:
+            break
 
     if projection == ['*'] and not relations:
         raise TSQLSyntaxError(
